@@ -333,9 +333,9 @@ class FmtStr:
     def copy_with_new_str(self, new_str: str) -> "FmtStr":
         """Copies the current FmtStr's attributes while changing its string."""
         # What to do when there are multiple Chunks with conflicting atts?
-        old_atts = {
-            att: value for bfs in self.chunks for (att, value) in bfs.atts.items()
-        }
+        # empty runs show nothing: their attributes must not leak into the new string
+        chunks = [bfs for bfs in self.chunks if len(bfs) > 0] or self.chunks
+        old_atts = {att: value for bfs in chunks for (att, value) in bfs.atts.items()}
         return FmtStr(Chunk(new_str, old_atts))
 
     def setitem(self, startindex: int, fs: Union[str, "FmtStr"]) -> "FmtStr":
